@@ -406,6 +406,7 @@ SPEC_FUNS.update({
     "props_accepts": (["V", "S"], "B", "props_accepts"),
     "outcome_of": (["V", "V"], "V", "outcome_of"),
     "d6_multiple": (["V", "V"], "B", "d6_multiple"),
+    "dflt": (["V"], "V", "dflt"), "prop_for": (["V", "S"], "V", "prop_for"),
     "vrejects": (["V", "V"], "B", "vrejects"), "validators_of": (["V"], "V", "validators_of"),
     "csem": (["V", "V"], "B", "csem"), "cbuild": (["V", "V"], "V", "cbuild"), "accepts_all": (["V", "V"], "B", "accepts_all"),
 })
